@@ -204,6 +204,7 @@ func init() {
 		m.cur.notes = append(m.cur.notes, key+"="+strings.Join(parts, ","))
 		return nil
 	})
+	reg(nd+"Recover", func(m *Machine, fr *frame, a []Value) Value { return nil })
 	reg(nd+"Register", func(m *Machine, fr *frame, a []Value) Value { return nil })
 
 	// ---- assembly-backed primitives -------------------------------------------------
